@@ -102,9 +102,15 @@ fn exec_solver(mut reader: DimacsInstanceRead, program: &str, options: &[String]
         }
         stdin.flush()
     });
-    let stdout = child.stdout.take().expect("Failed to open stdout");
+    let mut stdout = child.stdout.take().expect("Failed to open stdout");
+    // the output must be drained before waiting for the child:
+    // a child blocked on a full stdout pipe would never exit
+    let mut output = Vec::new();
+    stdout
+        .read_to_end(&mut output)
+        .expect("Failed to read from stdout");
     child.wait().expect("failed to wait on child");
-    Box::new(stdout)
+    Box::new(std::io::Cursor::new(output))
 }
 
 #[cfg(test)]
